@@ -106,14 +106,15 @@ def h_stream_next(I, st, fr):
         exists, is_err, ln, content = chunks[pos]
         out = []
         ek = sc.get('chunk_err_kind', 2)
-        for cond, val, adv in ((z3.Not(exists), mk_none(), False),
-                               (z3.And(exists, is_err), mk_some(mk_err(Obj('terror', tkind=ek, url=s.d['url']))), True),
-                               (z3.And(exists, z3.Not(is_err)), mk_some(mk_ok(Obj('bytes', len=ln, content=content))), True)):
+        for cond, val, adv, good in ((z3.Not(exists), mk_none(), False, False),
+                               (z3.And(exists, is_err), mk_some(mk_err(Obj('terror', tkind=ek, url=s.d['url']))), True, False),
+                               (z3.And(exists, z3.Not(is_err)), mk_some(mk_ok(Obj('bytes', len=ln, content=content))), True, True)):
             s2 = st.clone(); s2.pc.append(cond)
             if not I.feasible(s2): continue
             so = I.deref_load(s2, d['ref'])
             so.d['pos'] = (pos + 1) if adv else len(chunks)
-            if adv and not z3.is_true(z3.simplify(is_err)): s2.events.append(('chunk', s.d['url'], pos))
+            if good:
+                s2.events.append(('chunk', s.d['url'], pos)); s2.events.append(('chunk_len', ln))
             I.do_return(s2, val); out.append(s2)
         return out
     if s.d['skind'] == 'map':
